@@ -267,6 +267,12 @@ func (s *Server) Start(ctx context.Context) error {
 // Stop stops the PPPoE server
 func (s *Server) Stop() error {
 	s.logger.Info("Stopping PPPoE server")
+
+	// Shutdown ends every session
+	for _, session := range s.sessions.GetAllSessions() {
+		s.endSession(session)
+	}
+
 	if s.socket != nil {
 		return s.socket.close()
 	}
@@ -776,7 +782,7 @@ func (s *Server) handlePAP(session *Session, data []byte) {
 }
 
 // endSession ends a session on the server's initiative (authentication
-// failure): the client address goes back to the pool and the session
+// failure, shutdown): the client address goes back to the pool and the session
 // leaves the session table, as for a PADT or an LCP Terminate-Request.
 func (s *Server) endSession(session *Session) {
 	if s.clientIPPool != nil {
